@@ -64,14 +64,24 @@ def graph_module(rng):
         if j in ints and kinds[j] == "s":
             q = ints[j][0]
             users += "fn rd_%d_%d(v: &%s) -> i32\n{\n\treturn: v.m%d.m%d\n}\nfn wr_%d_%d(v: &%s)\n{\n\tv.m%d.m%d = 1;\n}\n" % (i, m, names[i], m, q, i, m, names[i], m, q)
+    # a WORD reached through a pointer member, declared anywhere among the others
+    if rng.random() < 0.5:
+        structs_ = [i for i in range(n) if kinds[i] == "s"]
+        if structs_:
+            i = rng.choice(structs_)
+            decls[i] = decls[i].replace("\n{\n", "\n{\n\tpw: &W9,\n", 1)
+            decls[n] = "word64 W9\n{\n\tx: i32,\n\ty: i32,\n}\n"
+            order.insert(rng.randrange(len(order) + 1), n)
+            edges[n] = []
+            users += "fn rdw_%d(v: &%s) -> i32\n{\n\treturn: v.pw.x\n}\n" % (i, names[i])
     decls["users"] = users
     return names, kinds, decls, edges, order
 
 
 def render(names, kinds, decls, edges, order):
     src = "".join(decls[i] + "\n" for i in order) + (decls.get("users", "") if not has_cycle(names, edges) else "") + "fn main() -> u8\n{\n\treturn: 0\n}\n"
-    cs = "(" + " ".join("(%s %s)" % (names[i], kinds[i]) for i in order) + ")"
-    es = "(" + " ".join("(%s %s %s)" % e for i in order for e in edges[i]) + ")"
+    cs = "(" + " ".join("(%s %s)" % (names[i], kinds[i]) for i in order if i < len(names)) + ")"      # (the extra word W9 is not part of the graph)
+    es = "(" + " ".join("(%s %s %s)" % e for i in order if i < len(names) for e in edges[i]) + ")"
     return src, "(%s %s)" % (cs, es)
 
 
@@ -143,6 +153,7 @@ def run(tier):
         if sorted(mcodes) != sorted(real_cyc):
             mism += 1; ck.violation("tie-broken:codes", "model cycle codes %s, real %s" % (mcodes, real_cyc), replay); continue
         rd = dict(x.split("=") for x in f[3].split(",")) if len(f) > 3 and f[3] not in ("-", "") else {}
+        rd.pop("W9", None)
         mdm = dict(x.split("=") for x in md[len("depths="):].split(",")) if md != "depths=" else {}
         if rd != mdm:
             mism += 1; ck.violation("tie-broken:depths", "model depths differ from the scoper's", replay)
@@ -165,7 +176,11 @@ def run(tier):
         decls, fns, consts, structs, codes = [], [], [], [], set()
         for _ in range(drng.randint(2, 5)):
             k = drng.random(); nm = drng.choice(pool)
-            if k < 0.35:
+            if k < 0.12:
+                # a signature without a body (a forward / extern declaration): its parameters are in scope in it alone
+                ps = [drng.choice(pool + ["p", "q", "r"]) for _ in range(drng.randint(1, 3))]
+                decls.append(("head", "h%d" % len(decls), ps))
+            elif k < 0.35:
                 ps = [drng.choice(pool + ["p", "q"]) for _ in range(drng.randint(0, 3))]
                 decls.append(("fn", nm, ps)); fns.append(nm)
             elif k < 0.65:
@@ -177,7 +192,7 @@ def run(tier):
         if len(set(consts)) < len(consts): codes.add("423")
         if len(set(structs)) < len(structs): codes.add("425")
         for kind, nm, xs in decls:
-            if kind == "fn" and (len(set(xs)) < len(xs) or set(xs) & set(consts)): codes.add("424")
+            if kind in ("fn", "head") and (len(set(xs)) < len(xs) or set(xs) & set(consts)): codes.add("424")
             if kind == "struct" and len(set(xs)) < len(xs): codes.add("426")      # members only clash with members of the same structure (D71)
         # every structure is also USED as a type (a constant of the same name must not get in the way)
         for st_ in sorted(set(structs)):
@@ -185,7 +200,11 @@ def run(tier):
         def render_d(d):
             kind, nm, xs = d
             if kind == "user": return "fn use_%s(v: &%s)\n{\n}\n" % (nm, nm)
-            if kind == "fn": return "fn %s(%s)\n{\n}\n" % (nm, ", ".join("%s: i32" % x for x in xs))
+            if kind == "head": return "%sfn %s(%s);\n" % ("extern " if len(nm) % 2 else "", nm, ", ".join("%s: i32" % x for x in xs))
+            if kind == "fn":
+                # locals named like the parameters of OTHER functions and signatures (never like its own or a constant)
+                loc = [v for v in ("p", "q", "r") if v not in xs]
+                return "fn %s(%s)\n{\n%s}\n" % (nm, ", ".join("%s: i32" % x for x in xs), "".join("\tvar %s: i32 = 1;\n" % v for v in loc))
             if kind == "const": return "const %s: i32 = 1;\n" % nm
             return "struct %s\n{\n%s}\n" % (nm, "".join("\t%s: i32,\n" % x for x in xs))
         for k in range(2):
